@@ -438,6 +438,9 @@ func (e *Engine) parseContracts(body, pkgPath, file string, line0 int) error {
 				return fmt.Errorf("%s:%d: %v", file, rc.line, err)
 			}
 			sf.File = file
+			if prev := e.SpecFns[sf.Name]; prev != nil {
+				return fmt.Errorf("%s:%d: spec fn %s is already defined in %s", file, rc.line, sf.Name, prev.File)
+			}
 			e.SpecFns[sf.Name] = sf
 			cur, curLoop = nil, nil
 		case "axiom":
